@@ -216,38 +216,144 @@ func checkC13(c *Ctx) (string, []string) {
 	}
 	c.extra["byte_reads_examined"] = nread
 
-	c.Rule("C13.short-read", "every raw read from the input buffer in internal/types either goes through io.ReadFull / binary.Read (which fail on short input) or compares the returned count with the requested length", 6)
-	for _, f := range c.SrcFuncs(typesPkg) {
-		if strings.Contains(c.pos(f.Pos()), "json") {
-			continue
+	c.Rule("C13.short-read", "every call in internal/types that the input reader (Decoder.buf, directly or wrapped by io.LimitReader / bufio / an interface conversion, or handed to a helper) flows into is one that fails on short input (io.ReadFull, binary.Read, io.ReadAtLeast with the full length, io.CopyN, ReadByte) or has its returned count / result length compared; readers that accept a short payload (Read, io.ReadAll, io.Copy, ReadAt, WriteTo) without such a comparison are violations", 30)
+	{
+		type item struct {
+			f *ssa.Function
+			v ssa.Value
 		}
-		allInstrs(f, func(in ssa.Instruction) {
-			call, ok := in.(*ssa.Call)
-			if !ok {
-				return
+		seenV := map[ssa.Value]bool{}
+		var work []item
+		for _, f := range c.SrcFuncs(typesPkg) {
+			if strings.Contains(c.pos(f.Pos()), "json") {
+				continue
 			}
-			sc := call.Call.StaticCallee()
-			if sc == nil {
-				return
+			for _, fc := range withClosures(f) {
+				allInstrs(fc, func(in ssa.Instruction) {
+					u, ok := in.(*ssa.UnOp)
+					if !ok || u.Op != token.MUL {
+						return
+					}
+					fa, ok := u.X.(*ssa.FieldAddr)
+					if !ok {
+						return
+					}
+					st, ok := derefType(fa.X.Type()).Underlying().(*types.Struct)
+					if !ok || st.Field(fa.Field).Name() != "buf" || !strings.HasSuffix(typeStr(derefType(fa.X.Type())), "types.Decoder") {
+						return
+					}
+					work = append(work, item{fc, u})
+				})
 			}
-			switch sc.String() {
-			case "(*bytes.Reader).Read":
-				key := funcKey(f) + " · bytes.Reader.Read"
-				okCount := false
-				for _, r := range *call.Referrers() {
-					if ex, ok := r.(*ssa.Extract); ok && ex.Index == 0 {
-						for _, r2 := range *ex.Referrers() {
-							if bo, ok := r2.(*ssa.BinOp); ok && (bo.Op == token.NEQ || bo.Op == token.EQL || bo.Op == token.LSS) {
-								okCount = true
-							}
+		}
+		compared := func(v ssa.Value) bool {
+			// v (an int count, or a slice whose len is taken) takes part in a comparison
+			ok := false
+			var visit func(ssa.Value, int)
+			visit = func(v ssa.Value, d int) {
+				if d > 4 || v.Referrers() == nil {
+					return
+				}
+				for _, r := range *v.Referrers() {
+					switch x := r.(type) {
+					case *ssa.BinOp:
+						switch x.Op {
+						case token.NEQ, token.EQL, token.LSS, token.GTR, token.LEQ, token.GEQ:
+							ok = true
+						}
+					case *ssa.Convert:
+						visit(x, d+1)
+					case *ssa.Call:
+						if b, isB := x.Call.Value.(*ssa.Builtin); isB && b.Name() == "len" {
+							visit(x, d+1)
 						}
 					}
 				}
-				c.Check(okCount, "C13.short-read", key, call.Pos(), "returned count compared with the requested length", "bytes.Reader.Read returns n < len(p) with a nil error when the input is short; the count is ignored, so truncated input is zero-filled and accepted")
-			case "io.ReadFull":
-				c.OK("C13.short-read", funcKey(f)+" · io.ReadFull", call.Pos(), "io.ReadFull fails on short input")
 			}
-		})
+			visit(v, 0)
+			return ok
+		}
+		resultOf := func(call *ssa.Call, idx int) ssa.Value {
+			for _, r := range *call.Referrers() {
+				if ex, ok := r.(*ssa.Extract); ok && ex.Index == idx {
+					return ex
+				}
+			}
+			return nil
+		}
+		for len(work) > 0 {
+			it := work[len(work)-1]
+			work = work[:len(work)-1]
+			if seenV[it.v] || it.v.Referrers() == nil {
+				continue
+			}
+			seenV[it.v] = true
+			f := it.f
+			for _, r := range *it.v.Referrers() {
+				switch x := r.(type) {
+				case *ssa.MakeInterface:
+					work = append(work, item{f, x})
+				case *ssa.ChangeInterface:
+					work = append(work, item{f, x})
+				case *ssa.ChangeType:
+					work = append(work, item{f, x})
+				case *ssa.Phi:
+					work = append(work, item{f, x})
+				case *ssa.Call:
+					name := ""
+					if x.Call.IsInvoke() {
+						name = "io.Reader." + x.Call.Method.Name()
+					} else if sc := x.Call.StaticCallee(); sc != nil {
+						name = sc.String()
+					} else {
+						c.Unknown("C13.short-read", funcKey(f)+" · dynamic call on the input reader", x.Pos(), "cannot resolve the callee the input reader is passed to")
+						continue
+					}
+					short := strings.TrimPrefix(strings.TrimPrefix(name, "(*bytes.Reader)."), "io.Reader.")
+					key := funcKey(f) + " · " + strings.Replace(name, "(*bytes.Reader).", "bytes.Reader.", 1)
+					switch name {
+					case "io.ReadFull":
+						c.OK("C13.short-read", key, x.Pos(), "io.ReadFull fails on short input")
+					case "encoding/binary.Read":
+						c.OK("C13.short-read", key, x.Pos(), "binary.Read fails on short input")
+					case "io.CopyN":
+						c.OK("C13.short-read", key, x.Pos(), "io.CopyN fails on short input")
+					case "io.ReadAtLeast":
+						full := false
+						if len(x.Call.Args) == 3 {
+							if l, ok := stripConv(x.Call.Args[2]).(*ssa.Call); ok {
+								if b, isB := l.Call.Value.(*ssa.Builtin); isB && b.Name() == "len" && l.Call.Args[0] == x.Call.Args[1] {
+									full = true
+								}
+							}
+						}
+						c.Check(full, "C13.short-read", key, x.Pos(), "io.ReadAtLeast with min = len(buf) fails on short input", "io.ReadAtLeast with a minimum below the buffer length accepts a short payload")
+					case "io.LimitReader", "bufio.NewReader", "bufio.NewReaderSize", "io.TeeReader", "io.NewSectionReader":
+						work = append(work, item{f, x})
+					case "(*bytes.Reader).Read", "io.Reader.Read", "(*bytes.Reader).ReadAt":
+						n := resultOf(x, 0)
+						c.Check(n != nil && compared(n), "C13.short-read", key, x.Pos(), "returned count compared with the requested length", short+" returns n < len(p) with a nil error when the input is short; the count is ignored, so truncated input is zero-filled and accepted")
+					case "io.ReadAll", "io.Copy", "(*bytes.Reader).WriteTo", "(*bytes.Buffer).ReadFrom":
+						n := resultOf(x, 0)
+						c.Check(n != nil && compared(n), "C13.short-read", key, x.Pos(), "length of what was read is compared with the declared length", name+" treats end of input as success: a payload shorter than its declared length is accepted (the result's length is never compared)")
+					case "(*bytes.Reader).ReadByte", "(*bytes.Reader).Len", "(*bytes.Reader).Size", "(*bytes.Reader).UnreadByte", "(*bytes.Reader).Reset", "(*bytes.Reader).Seek":
+						// single-byte read reports EOF; the others do not consume payload
+					default:
+						sc := x.Call.StaticCallee()
+						if sc != nil && len(sc.Blocks) > 0 && strings.HasPrefix(sc.String(), "") && sc.Pkg != nil && strings.HasPrefix(sc.Pkg.Pkg.Path(), modPath) {
+							args := x.Call.Args
+							for ai, a := range args {
+								if a == it.v && ai < len(sc.Params) {
+									work = append(work, item{sc, sc.Params[ai]})
+								}
+							}
+							continue
+						}
+						c.Unknown("C13.short-read", key, x.Pos(), "the input reader is passed to %s, whose short-input behaviour is not in the rule's table", name)
+					}
+				}
+			}
+		}
 	}
 
 	c.Rule("C13.minimality", "the protocol decoder's natural-number reader rejects non-minimal encodings (rule shared with C12)", 2)
